@@ -469,3 +469,136 @@ def r_bdf_matrix(rep, f):
         rep.violation("R-BDF-MATRIX", key, "; ".join(probs), blk.get("sp"))
     else:
         rep.ok("R-BDF-MATRIX", key, "lu_matrix = I - c*J with c = h/alpha[order]")
+
+
+# ------------------------------------------------------------------------------------------ R-CPLX-ALGEBRA
+def _mini(e, env):
+    """expression -> Poly over atoms named by the rendered operand text (locals, matrix/vector elements)"""
+    from poly import lit_fraction
+    k = e.get("k")
+    if k == "Lit" and e.get("lk") in ("Float", "Int"):
+        return Poly.const(lit_fraction(e["v"]))
+    if k == "Path" and e.get("res") == "local":
+        nm = e.get("name")
+        return env.get(nm, Poly.atom(nm))
+    if k == "Index":
+        return Poly.atom(tast.render(e))
+    if k == "Unary" and e["op"] == "Neg":
+        v = _mini(e["e"], env)
+        return None if v is None else -v
+    if k == "Unary" and e["op"] == "Deref":
+        return _mini(e["e"], env)
+    if k == "Binary" and e["op"] in ("Add", "Sub", "Mul", "Div"):
+        l, r = _mini(e["l"], env), _mini(e["r"], env)
+        if l is None or r is None:
+            return None
+        if e["op"] == "Add":
+            return l + r
+        if e["op"] == "Sub":
+            return l - r
+        if e["op"] == "Mul":
+            return l * r
+        return l.div(r)
+    return None
+
+
+def _swap_ri(name):
+    """candidate partner names: swap one 'r' <-> 'i' role letter"""
+    out = []
+    for j, ch in enumerate(name):
+        if ch in "ri":
+            out.append(name[:j] + ("i" if ch == "r" else "r") + name[j + 1:])
+    return out
+
+
+def r_cplx_algebra(rep, f):
+    """every (x_r, x_i) pair computed in the complex routines is the complex product (or quotient) of its operand pairs;
+    the special-cased branches (purely real / purely imaginary multiplier) are specialisations of the general formula"""
+    n_pairs = 0
+    for fn in (LUC, SOLC):
+        b = f.bodies.get(fn)
+        if b is None:
+            rep.inconc("R-CPLX-ALGEBRA", "R-CPLX-ALGEBRA:%s" % fn, "function not found")
+            continue
+        rep.fn(fn)
+        short = fn.split("::")[-1]
+        for blk, parents in tast.find_with_parents(b["body"], lambda z: z.get("k") == "Block"):
+            lets = [s for s in blk["stmts"] if s.get("k") == "Let" and s["pat"].get("k") == "PBind" and s.get("init") is not None]
+            byname = {l["pat"]["name"]: l for l in lets}
+            for nm, lr in byname.items():
+                if not nm.endswith("_r"):
+                    continue
+                li = byname.get(nm[:-2] + "_i")
+                if li is None:
+                    continue
+                # zero substitutions from the enclosing `if x == 0.0` conditions (then-branches) and `!= 0` else-branches
+                env = {}
+                for p in parents:
+                    if p.get("k") == "If" and p["cond"].get("k") == "Binary" and p["cond"]["op"] == "Eq" and tast.contains(p["then"], lambda z: z is blk):
+                        c = p["cond"]
+                        if c["l"].get("k") == "Path" and c["r"].get("k") == "Lit" and float(c["r"]["v"]) == 0.0:
+                            env[c["l"]["name"]] = Poly()
+                xr, xi = _mini(lr["init"], env), _mini(li["init"], env)
+                n_pairs += 1
+                key = "R-CPLX-ALGEBRA:%s:%s@%s" % (short, nm[:-2], _branch_tag(parents, blk))
+                if xr is None or xi is None:
+                    rep.inconc("R-CPLX-ALGEBRA", key, "cannot evaluate the pair symbolically")
+                    continue
+                atoms = sorted((xr.atoms() | xi.atoms() | set(env)))
+                # operand pairs
+                pairs = []
+                used = set()
+                for a in atoms:
+                    if a in used:
+                        continue
+                    for cand in _swap_ri(a):
+                        if cand in atoms and cand not in used and cand != a:
+                            # order as (real, imaginary): the real part is the one whose swapped letter is 'r'
+                            j = [t for t in range(len(a)) if a[t] != cand[t]][0]
+                            re_, im_ = (a, cand) if a[j] == "r" else (cand, a)
+                            pairs.append((re_, im_))
+                            used.update((a, cand))
+                            break
+                ok = False
+                why = ""
+                P = lambda s: env.get(s, Poly.atom(s))
+                if len(pairs) == 2:
+                    (ar_, ai_), (br_, bi_) = pairs
+                    prod = (P(ar_) * P(br_) - P(ai_) * P(bi_), P(ai_) * P(br_) + P(ar_) * P(bi_))
+                    if (xr, xi) == prod:
+                        ok, why = True, "(%s + i %s)*(%s + i %s)" % (ar_, ai_, br_, bi_)
+                    else:
+                        # quotient b / a with den = |a|^2 : x = b*conj(a)/den
+                        for (a1, a2), (b1, b2) in ((pairs[0], pairs[1]), (pairs[1], pairs[0])):
+                            den = Poly.atom("den")
+                            if "den" in (xr.atoms() | xi.atoms()):
+                                q = ((P(b1) * P(a1) + P(b2) * P(a2)).div(den), (P(b2) * P(a1) - P(b1) * P(a2)).div(den))
+                                if (xr, xi) == q:
+                                    ok, why = True, "(%s + i %s)/(%s + i %s) via conj/den" % (b1, b2, a1, a2)
+                    if not ok:
+                        want = "re = %r, im = %r" % prod
+                        why = "computed re = %r, im = %r; the complex product of its operands is %s" % (xr, xi, want)
+                elif len(pairs) == 1 and not env:
+                    # conj / |.|^2 style reciprocals are checked through their use; a lone pair scaled by a real is fine
+                    ok, why = True, "real scaling of (%s, %s)" % pairs[0]
+                else:
+                    why = "operand pairs not recognised: %s" % atoms
+                    rep.note("%s %s" % (key, why))
+                    continue
+                if ok:
+                    rep.ok("R-CPLX-ALGEBRA", key, why)
+                else:
+                    rep.violation("R-CPLX-ALGEBRA", key, "`%s_r/_i` is not the complex product of its operands: %s" % (nm[:-2], why[:400]), lr.get("sp"))
+    if n_pairs < 8:
+        rep.inconc("R-CPLX-ALGEBRA", "R-CPLX-ALGEBRA:floor", "only %d real/imaginary pairs found (expected >= 8)" % n_pairs)
+
+
+def _branch_tag(parents, blk):
+    tags = []
+    for p in parents:
+        if p.get("k") == "If" and p["cond"].get("k") == "Binary" and p["cond"]["op"] in ("Eq", "Ne"):
+            tags.append(tast.render(p["cond"]).replace(" ", "") + (":then" if tast.contains(p["then"], lambda z: z is blk) else ":else"))
+        if p.get("k") == "For":
+            tags.append("for-" + str(p["pat"].get("name")))
+    ln = ""
+    return "/".join(tags[-3:]) or "top"
